@@ -786,8 +786,25 @@ function constSortKey(value: Const): string {
   return `${typeof value}:${String(value)}`;
 }
 
+// a total order that does not depend on the host: the collation is pinned (it used to be the
+// default locale's) and strings it considers equal ("\u00e9" / "e\u0301") are told apart by code units
 function compareConst(a: Const, b: Const): number {
-  return constSortKey(a).localeCompare(constSortKey(b));
+  const ka = constSortKey(a);
+  const kb = constSortKey(b);
+  return ka.localeCompare(kb, "en") || (ka < kb ? -1 : ka > kb ? 1 : 0);
+}
+
+// the order `[...values].sort()` gives (by string form), with ties between different types
+// (1 and "1", null and "null") broken by type instead of by the order the members were listed in
+function compareConstByStringForm(a: Const, b: Const): number {
+  const sa = String(a);
+  const sb = String(b);
+  if (sa !== sb) {
+    return sa < sb ? -1 : 1;
+  }
+  const ta = a === null ? "null" : typeof a;
+  const tb = b === null ? "null" : typeof b;
+  return ta < tb ? -1 : ta > tb ? 1 : 0;
 }
 
 function hash256Const(ctx: Hash256Context, value: Const): void {
@@ -1207,7 +1224,7 @@ export class AnyOfConstsRuntype extends BaseRuntype {
   }
   hash(_ctx: HashContext): number {
     let acc: number[] = [anyOfConstsHash];
-    for (const v of [...this.values].sort()) {
+    for (const v of [...this.values].sort(compareConstByStringForm)) {
       if (v == null) {
         acc.push(nullishHash);
       } else {
@@ -1503,7 +1520,7 @@ function stableJsonSchemaDefinitionString(value: JSONSchema7Definition): string 
     return `[${value.map(stableJsonSchemaDefinitionString).join(",")}]`;
   }
 
-  const entries = Object.entries(value).sort(([a], [b]) => a.localeCompare(b));
+  const entries = Object.entries(value).sort(([a], [b]) => (a < b ? -1 : a > b ? 1 : 0));
   return `{${entries
     .map(
       ([key, inner]) =>
